@@ -37,7 +37,7 @@ def attr_c01(ev, names):
 
 
 def attr_c02(ev, names):
-    return fam(ev, "a") and ev["op"] in C02_OPS and any_in(names, {"flags", "nbits", "sys"})
+    return fam(ev, "a") and ev["op"] in C02_OPS and any_in(names, {"flags", "flagimp", "nbits", "sys"})
 
 
 def attr_c07(ev, names):
@@ -54,6 +54,12 @@ def attr_c09(ev, names):
 
 def attr_c10(ev, names):
     return fam(ev, "a") and ev["op"] in {"quoint", "rem"} and any_in(names, {"val", "exp", "flags", "panic", "sys"})
+
+
+def attr_c19(ev, names):
+    if fam(ev, "a") and ev["op"] == "reduce":
+        return any_in(names, {"val", "exp", "cnt", "panic", "sys"})
+    return fam(ev, "nd")
 
 
 PROPS = {
@@ -78,6 +84,13 @@ PROPS = {
         attr=attr_c07,
         rule="Fits(ctx, result) on every finite result of a rounding operation",
     ),
+    "C08": dict(
+        mc=[("MC_Round", None)],
+        drivers=["specials"],
+        attr=attr_c08,
+        rule="every operation x every combination of {NaN, sNaN, +-Inf, +-0 with several exponents, finite} operands x "
+             "contexts, exhaustively, judged by the special-value prologues of Arith/Roots/Transc",
+    ),
     "C09": dict(
         mc=[("MC_Round", None)],
         drivers=["intS", "intL"],
@@ -91,3 +104,6 @@ PROPS = {
         rule="QuoInteger / Rem events judged by Spec_QuoInt / Spec_Rem (division identity by construction)",
     ),
 }
+
+HOOK_COMMITS = []
+NOT_YET = {}
